@@ -65,7 +65,9 @@ TW_ScanL(n, h, pos, j, lim) == IF j > lim /\ At(n, j) = At(h, pos + j) THEN TW_S
 RECURSIVE TW_ScanLL(_, _, _, _)     \* large period: for j in (0..crit).rev(); -1 if all equal else the mismatching j
 TW_ScanLL(n, h, pos, j) == IF j < 0 THEN -1 ELSE IF At(n, j) # At(h, pos + j) THEN j ELSE TW_ScanLL(n, h, pos, j - 1)
 
-TW_Init(ps) == [pos |-> 0, shift |-> 0, ps |-> ps, cmps |-> 0, pre |-> 0, iters |-> 0, res |-> -2, done |-> FALSE, bad |-> FALSE, arms |-> {}]
+\* `ticks` mirrors the placement of the H7 step-counter hook exactly (one per outer-loop body entry, one per byte matched in
+\* the right/left scans, one per iteration of the large-period `for j` loop) so that the code's counter can be compared with it
+TW_Init(ps) == [pos |-> 0, shift |-> 0, ps |-> ps, cmps |-> 0, ticks |-> 0, pre |-> 0, iters |-> 0, res |-> -2, done |-> FALSE, bad |-> FALSE, arms |-> {}]
 
 \* one iteration of the outer `while pos + needle.len() <= haystack.len()` loop (needle non-empty)
 TW_FwdIter(n, p, pre, h, st) ==
@@ -78,7 +80,7 @@ TW_FwdIter(n, p, pre, h, st) ==
       c == IF e.eff THEN PF_PreFind(n, pre, Drop(h, st.pos), e.ps) ELSE [res |-> 0, route |-> "off", ps |-> e.ps]
       pos1 == IF e.eff /\ c.res >= 0 THEN st.pos + c.res ELSE st.pos
       sh1 == IF e.eff THEN 0 ELSE st.shift
-      st1 == [st EXCEPT !.ps = c.ps, !.pre = @ + (IF e.eff THEN 1 ELSE 0), !.iters = @ + 1,
+      st1 == [st EXCEPT !.ps = c.ps, !.pre = @ + (IF e.eff THEN 1 ELSE 0), !.iters = @ + 1, !.ticks = @ + 1,
                         !.arms = @ \cup {IF e.eff THEN "pre_" \o c.route ELSE IF pre.kind # "none" /\ PS_Inert(e.ps) THEN "pre_inert" ELSE "pre_off"}]
   IN IF e.eff /\ c.res < 0 THEN fin(st1, -1, "pre_none")
      ELSE IF pos1 + nl > hl THEN fin([st1 EXCEPT !.pos = pos1], -1, "pre_past_end")
@@ -86,19 +88,19 @@ TW_FwdIter(n, p, pre, h, st) ==
           THEN [st1 EXCEPT !.pos = pos1 + nl, !.shift = 0, !.cmps = @ + 1, !.arms = @ \cup {"byteset_skip"}]
      ELSE IF p.small THEN
         LET i0 == Max2(p.crit, sh1)  i == TW_ScanR(n, h, pos1, i0) IN
-        IF i < nl THEN [st1 EXCEPT !.pos = pos1 + (i - p.crit + 1), !.shift = 0, !.cmps = @ + (i - i0 + 1),
+        IF i < nl THEN [st1 EXCEPT !.pos = pos1 + (i - p.crit + 1), !.shift = 0, !.cmps = @ + (i - i0 + 1), !.ticks = @ + (i - i0),
                                    !.bad = @ \/ (i - p.crit + 1 <= 0), !.arms = @ \cup {"s_right_mismatch"}]
         ELSE LET j == TW_ScanL(n, h, pos1, p.crit, sh1) IN
              IF j <= sh1 /\ At(n, sh1) = At(h, pos1 + sh1)
-             THEN fin([st1 EXCEPT !.pos = pos1, !.cmps = @ + (i - i0) + (p.crit - j + 1)], pos1, "s_match")
-             ELSE [st1 EXCEPT !.pos = pos1 + p.val, !.shift = nl - p.val, !.cmps = @ + (i - i0) + (p.crit - j + 1),
+             THEN fin([st1 EXCEPT !.pos = pos1, !.cmps = @ + (i - i0) + (p.crit - j + 1), !.ticks = @ + (i - i0) + (p.crit - j)], pos1, "s_match")
+             ELSE [st1 EXCEPT !.pos = pos1 + p.val, !.shift = nl - p.val, !.cmps = @ + (i - i0) + (p.crit - j + 1), !.ticks = @ + (i - i0) + (p.crit - j),
                               !.bad = @ \/ (p.val <= 0) \/ (nl - p.val < 0), !.arms = @ \cup {"s_period_shift"}]
      ELSE
         LET i == TW_ScanR(n, h, pos1, p.crit) IN
-        IF i < nl THEN [st1 EXCEPT !.pos = pos1 + (i - p.crit + 1), !.cmps = @ + (i - p.crit + 1), !.arms = @ \cup {"l_right_mismatch"}]
+        IF i < nl THEN [st1 EXCEPT !.pos = pos1 + (i - p.crit + 1), !.cmps = @ + (i - p.crit + 1), !.ticks = @ + (i - p.crit), !.arms = @ \cup {"l_right_mismatch"}]
         ELSE LET j == TW_ScanLL(n, h, pos1, p.crit - 1) IN
-             IF j < 0 THEN fin([st1 EXCEPT !.pos = pos1, !.cmps = @ + (i - p.crit) + p.crit], pos1, "l_match")
-             ELSE [st1 EXCEPT !.pos = pos1 + p.val, !.cmps = @ + (i - p.crit) + (p.crit - j),
+             IF j < 0 THEN fin([st1 EXCEPT !.pos = pos1, !.cmps = @ + (i - p.crit) + p.crit, !.ticks = @ + (i - p.crit) + p.crit], pos1, "l_match")
+             ELSE [st1 EXCEPT !.pos = pos1 + p.val, !.cmps = @ + (i - p.crit) + (p.crit - j), !.ticks = @ + (i - p.crit) + (p.crit - j),
                               !.bad = @ \/ (p.val <= 0), !.arms = @ \cup {"l_shift"}]
 RECURSIVE TW_FwdRun(_, _, _, _, _)
 TW_FwdRun(n, p, pre, h, st) == IF st.done THEN st ELSE TW_FwdRun(n, p, pre, h, TW_FwdIter(n, p, pre, h, st))
@@ -113,12 +115,12 @@ TW_RScanL(n, h, base, i) == IF i > 0 /\ At(n, i - 1) = At(h, base + i - 1) THEN 
 RECURSIVE TW_RScanR(_, _, _, _, _) \* while j < lim && needle[j] == haystack[pos - nlen + j]: j += 1
 TW_RScanR(n, h, base, j, lim) == IF j < lim /\ At(n, j) = At(h, base + j) THEN TW_RScanR(n, h, base, j + 1, lim) ELSE j
 
-TW_RInit(h, n) == [pos |-> Len(h), shift |-> Len(n), cmps |-> 0, iters |-> 0, res |-> -2, done |-> FALSE, bad |-> FALSE, arms |-> {}]
+TW_RInit(h, n) == [pos |-> Len(h), shift |-> Len(n), cmps |-> 0, ticks |-> 0, iters |-> 0, res |-> -2, done |-> FALSE, bad |-> FALSE, arms |-> {}]
 TW_RevIter(n, p, h, st) ==
   LET nl == Len(n)
       fin(s, r, arm) == [s EXCEPT !.done = TRUE, !.res = r, !.arms = @ \cup {arm}]
       base == st.pos - nl
-      st1 == [st EXCEPT !.iters = @ + 1]
+      st1 == [st EXCEPT !.iters = @ + 1, !.ticks = @ + 1]
   IN
   IF st.pos < nl THEN fin(st, -1, "exit")
   ELSE IF (At(h, base) % MODK) \notin p.byteset
@@ -126,20 +128,20 @@ TW_RevIter(n, p, h, st) ==
   ELSE IF p.small THEN
      LET i0 == Min2(p.crit, st.shift)  i == TW_RScanL(n, h, base, i0) IN
      IF i > 0 \/ At(n, 0) # At(h, base)
-     THEN [st1 EXCEPT !.pos = st.pos - (p.crit - i + 1), !.shift = nl, !.cmps = @ + (i0 - i + 1),
+     THEN [st1 EXCEPT !.pos = st.pos - (p.crit - i + 1), !.shift = nl, !.cmps = @ + (i0 - i + 1), !.ticks = @ + (i0 - i),
                       !.bad = @ \/ (p.crit - i + 1 <= 0) \/ (st.pos - (p.crit - i + 1) < 0), !.arms = @ \cup {"s_left_mismatch"}]
      ELSE LET j == TW_RScanR(n, h, base, p.crit, st.shift) IN
-          IF j >= st.shift THEN fin([st1 EXCEPT !.cmps = @ + (i0 - i) + (j - p.crit + 1)], base, "s_match")
-          ELSE [st1 EXCEPT !.pos = st.pos - p.val, !.shift = p.val, !.cmps = @ + (i0 - i) + (j - p.crit + 1),
+          IF j >= st.shift THEN fin([st1 EXCEPT !.cmps = @ + (i0 - i) + (j - p.crit + 1), !.ticks = @ + (i0 - i) + (j - p.crit)], base, "s_match")
+          ELSE [st1 EXCEPT !.pos = st.pos - p.val, !.shift = p.val, !.cmps = @ + (i0 - i) + (j - p.crit + 1), !.ticks = @ + (i0 - i) + (j - p.crit),
                            !.bad = @ \/ (p.val <= 0) \/ (st.pos - p.val < 0), !.arms = @ \cup {"s_period_shift"}]
   ELSE
      LET i == TW_RScanL(n, h, base, p.crit) IN
      IF i > 0 \/ At(n, 0) # At(h, base)
-     THEN [st1 EXCEPT !.pos = st.pos - (p.crit - i + 1), !.cmps = @ + (p.crit - i + 1),
+     THEN [st1 EXCEPT !.pos = st.pos - (p.crit - i + 1), !.cmps = @ + (p.crit - i + 1), !.ticks = @ + (p.crit - i),
                       !.bad = @ \/ (st.pos - (p.crit - i + 1) < 0), !.arms = @ \cup {"l_left_mismatch"}]
      ELSE LET j == TW_RScanR(n, h, base, p.crit, nl) IN
-          IF j = nl THEN fin([st1 EXCEPT !.cmps = @ + (p.crit - i) + (j - p.crit)], base, "l_match")
-          ELSE [st1 EXCEPT !.pos = st.pos - p.val, !.cmps = @ + (p.crit - i) + (j - p.crit + 1),
+          IF j = nl THEN fin([st1 EXCEPT !.cmps = @ + (p.crit - i) + (j - p.crit), !.ticks = @ + (p.crit - i) + (j - p.crit)], base, "l_match")
+          ELSE [st1 EXCEPT !.pos = st.pos - p.val, !.cmps = @ + (p.crit - i) + (j - p.crit + 1), !.ticks = @ + (p.crit - i) + (j - p.crit),
                            !.bad = @ \/ (p.val <= 0) \/ (st.pos - p.val < 0), !.arms = @ \cup {"l_shift"}]
 RECURSIVE TW_RevRun(_, _, _, _)
 TW_RevRun(n, p, h, st) == IF st.done THEN st ELSE TW_RevRun(n, p, h, TW_RevIter(n, p, h, st))
